@@ -276,9 +276,7 @@ def execute(prop, scen):
     from engines.registry import all_estimator_classes
     res = RunResult()
     peers.reset()
-    from sktime.forecasting.base import ForecastingHorizon
-    ForecastingHorizon.to_relative.cache_clear()
-    ForecastingHorizon.to_absolute.cache_clear()
+    C.reset_caches()
     cls = None
     for q, c, k in all_estimator_classes():
         if q == scen["qual"]:
